@@ -313,6 +313,95 @@ fn oracle_file(_ctx: &Ctx, seed: u64, from: u64, to: u64, with_witness: bool) ->
 }
 
 // ---------------------------------------------------------------------------------------------------
+// c08.laws: the hypotheses of the theorems about f32 (RealLaws), checked on Rust's f32 itself
+
+fn law_failures(x: f32) -> Option<String> {
+    if !x.is_finite() {
+        return None;
+    }
+    if !(x == x) {
+        return Some("x == x".into());
+    }
+    let twin = if x == 0.0 { -x } else { x };
+    if !(twin == x && x == twin && -twin == -x) {
+        return Some("== is symmetric / unary minus respects ==".into());
+    }
+    let s = format!("{}", x);
+    let big = x.fract() == 0.0 && x.abs() >= 2147483648.0;
+    if s.contains('e') || s.contains('E') {
+        return Some(format!("{{}} printed an exponent: {}", s));
+    }
+    if !s.contains('.') {
+        // integral: the digits either fit an i32 and convert back to an == value, or the value is `big`
+        match s.parse::<i32>() {
+            Ok(n) => {
+                if !((n as f32) == x) {
+                    return Some(format!("digits {} fit an i32 but {} as f32 != the value", s, n));
+                }
+            }
+            Err(_) => {
+                if !big {
+                    return Some(format!("digits {} do not fit an i32 although |x| < 2^31", s));
+                }
+            }
+        }
+        if x.fract() != 0.0 {
+            return Some("printed without a fraction but not integral".into());
+        }
+    } else {
+        if x.fract() == 0.0 {
+            return Some(format!("integral value printed with a fraction: {}", s));
+        }
+        if s.parse::<f32>().ok() != Some(x) {
+            return Some(format!("{} does not read back", s));
+        }
+    }
+    None
+}
+
+fn oracle_laws(seed: u64, n: u64, exhaustive_integral: bool) -> Oracle {
+    let mut or = Oracle::new("c08.laws");
+    let mut check = |or: &mut Oracle, x: f32| {
+        if let Some(what) = law_failures(x) {
+            or.fail("laws:f32", &format!("f32 {:08x} ({}): {}", x.to_bits(), x, what), json!({"stream": "c08.laws", "seed": seed, "case": 0, "bits": format!("{:08x}", x.to_bits())}));
+        }
+    };
+    let mut rng = Rng::derive(seed, "c08.laws", 0);
+    for x in BOUNDARY_REALS {
+        or.case(&format!("{:08x}", x.to_bits()), true, || json!({"bits": format!("{:08x}", x.to_bits())}));
+        check(&mut or, *x);
+    }
+    for _ in 0..n {
+        let x = real(&mut rng);
+        or.case(&format!("{:08x}", x.to_bits()), true, || json!({"bits": format!("{:08x}", x.to_bits())}));
+        or.count(if x.fract() == 0.0 { "integral" } else { "fraction" });
+        check(&mut or, x);
+        // transitivity of == on finite values: x == y and y == z only with equal bits or zeros
+        let y = real(&mut rng);
+        let z = real(&mut rng);
+        if x == y && y == z && !(x == z) {
+            or.fail("laws:f32", "== is not transitive", json!({"stream": "c08.laws", "seed": seed, "case": 0}));
+        }
+    }
+    if exhaustive_integral {
+        // every integral f32 of magnitude < 2^31 (the values `struct Real` prints as integer tokens)
+        let mut count = 0u64;
+        for b in 0..=0x4effffffu32 {
+            let x = f32::from_bits(b);
+            if x.fract() == 0.0 {
+                count += 2;
+                check(&mut or, x);
+                check(&mut or, -x);
+            }
+        }
+        or.cases += count;
+        or.distinct_nontrivial += count;
+        or.count("exhaustive-integral-below-2^31");
+    }
+    or
+}
+
+// ---------------------------------------------------------------------------------------------------
 
 pub fn run(driver: &Driver, seed: u64, thorough: bool, replay: Option<&serde_json::Value>) -> Report {
     let mut rep = Report::new("C08");
@@ -328,6 +417,7 @@ pub fn run(driver: &Driver, seed: u64, thorough: bool, replay: Option<&serde_jso
             "c08.table.seq" => rep.oracles.push(oracle_table(&ctx, seed, 0, case, case + 1, true)),
             "c08.leak" => rep.oracles.push(oracle_leak(&ctx, seed, case, case + 1)),
             "c08.file" => rep.oracles.push(oracle_file(&ctx, seed, case, case + 1, true)),
+            "c08.laws" => rep.oracles.push(oracle_laws(seed, 50_000, false)),
             _ => {
                 // a correspondence replay: re-run all streams of the quick tier with the stored seed
                 rep.streams.push(stream_ser(driver, &ctx, seed, 1500, false));
@@ -350,5 +440,6 @@ pub fn run(driver: &Driver, seed: u64, thorough: bool, replay: Option<&serde_jso
     rep.oracles.push(oracle_table(&ctx, seed, if t { 300 } else { 8 }, 0, if t { 100_000 } else { 2000 }, false));
     rep.oracles.push(oracle_leak(&ctx, seed, 0, if t { 100_000 } else { 2000 }));
     rep.oracles.push(oracle_file(&ctx, seed, 0, if t { 20_000 } else { 400 }, true));
+    rep.oracles.push(oracle_laws(seed, if t { 2_000_000 } else { 50_000 }, t));
     rep
 }
